@@ -75,6 +75,37 @@ class PEval:
                         else:
                             vals.append(self.expr(a, env, fn, depth))
                     return self.call(t, vals, depth + 1)
+            if k == "CXXOperatorCallExpr" and n.get("op") == "()":
+                # call of a lambda: an immediately invoked one, or a local variable holding one.  Captures by reference share the
+                # caller's environment (the lambda's own parameters and locals have their own declaration ids)
+                ch = [x for x in n.get("c", []) if isinstance(x, dict)]
+                target = strip(ch[1]) if len(ch) > 1 else None
+                lam = None
+                if target is not None and target.get("k") == "LambdaExpr":
+                    lam = target
+                elif target is not None and target.get("k") == "DeclRefExpr" and "did" in target:
+                    d = next((v for v in fn.locals().values() if v.get("did") == target["did"]), None)
+                    for c0 in (d or {}).get("c", []):
+                        if isinstance(c0, dict):
+                            lam = next((q for q in [strip(c0)] + list(self._walk(c0)) if q is not None and q.get("k") == "LambdaExpr"), None)
+                if lam is not None:
+                    lf = self._lambda_fn(fn, lam)
+                    if lf is None:
+                        raise NotClosedForm("lambda body not found")
+                    for prm, a in zip(lf.params(), ch[2:]):
+                        env[prm["did"]] = self.expr(a, env, fn, depth)
+                    body = lf.body
+                    r = self.stmts(body.get("c", []) if body.get("k") == "CompoundStmt" else [body], env, lf, depth + 1)
+                    if r is None:
+                        raise NotClosedForm("lambda without a value")
+                    return r
+            if k == "BinaryOperator" and n.get("op") == "=":
+                # assignment used as an expression (return v = e;): its value is the right-hand side
+                lhs = strip(n["c"][0])
+                v = self.expr(n["c"][1], env, fn, depth)
+                if lhs is not None and lhs.get("k") == "DeclRefExpr" and "did" in lhs:
+                    env[lhs["did"]] = v
+                return v
             if k == "BinaryOperator" and n.get("op") == "%":
                 a, b = self.expr(n["c"][0], env, fn, depth), self.expr(n["c"][1], env, fn, depth)
                 if a.is_Integer and b.is_Integer:
@@ -82,6 +113,18 @@ class PEval:
                 raise NotClosedForm("symbolic modulo")
             return None
         return res
+
+    @staticmethod
+    def _walk(n):
+        from .facts import walk as _w
+        return _w(n)
+
+    def _lambda_fn(self, fn, lam):
+        key = lam.get("lambda")
+        for g in self.db.all_functions([fn.file]):
+            if g.d.get("islambda") and g.key == key:
+                return g
+        return None
 
     def expr(self, e, env, fn, depth):
         return to_sympy(e, self.resolver(env, fn, depth))
@@ -178,7 +221,7 @@ class PEval:
                     if d.get("c"):
                         init = strip(d["c"][0])
                         if init is not None and init.get("k") == "LambdaExpr":
-                            raise NotClosedForm("lambda")
+                            continue        # a local lambda: evaluated where it is called
                         env[d["did"]] = self.expr(d["c"][0], env, fn, depth)
                 continue
             if k == "IfStmt":
@@ -362,7 +405,7 @@ class ArrayPEval(PEval):
                 handled = True
                 for d in st.get("c", []):
                     t = d.get("t", "")
-                    if (t.startswith("std::vector<") and "std::vector<std::vector" not in t) or t.endswith("]"):
+                    if (t.startswith(("std::vector<", "std::array<")) and "std::vector<std::vector" not in t) or t.endswith("]"):
                         env[d["did"]] = {}          # a local array, elements are set by the code
                     elif d.get("c"):
                         try:
@@ -402,6 +445,24 @@ class ArrayPEval(PEval):
                 lhs = strip(st["c"][0])
                 if lhs is not None and lhs.get("k") == "DeclRefExpr" and env.get(lhs.get("did")) is OPAQUE:
                     continue        # bookkeeping on an opaque scalar (running index into a container) stays opaque
+            if k == "IfStmt":
+                # a decided branch runs in place (its assignments must survive the statement); an undecided one is left to the base class
+                try:
+                    truth, _ = self.cond(st["cond"], env, fn, depth)
+                except NotClosedForm:
+                    truth = None
+                if truth is not None:
+                    br = st.get("then") if truth else st.get("else")
+                    if br is not None:
+                        r = self.stmts([br], env, fn, depth)
+                        if r is not None:
+                            return r
+                    continue
+            if k == "CompoundStmt":
+                r = self.stmts(st.get("c", []), env, fn, depth)
+                if r is not None:
+                    return r
+                continue
             try:
                 r = super().stmts([st], env, fn, depth)
             except NotClosedForm:
